@@ -18,6 +18,7 @@ import Goat.Stats
 import Goat.ClientStream
 import Goat.Drv.MuxReplay
 import Goat.Drv.SrvReplay
+import Goat.Drv.CsReplay
 import Goat.Drv.PbOps
 import Goat.Drv.PxOps
 import Goat.UnaryReply
@@ -298,6 +299,7 @@ def evalOp (op input : String) : Option String :=
     | _ => none
   | "srvtracedbg" => (parseList parseSrvObs ";" input).map (fun l => SrvReplay.debugGreedy (l.length + 1) ServerConn.init l 0)
   | "srvtrace" => (parseList parseSrvObs ";" input).map SrvReplay.verdict
+  | "cstrace" => some (CsReplay.csTrace input)
   | "muxtrace" => match input.splitOn "|" with
     | [n, evs] => (parseList parseMuxObs ";" evs).map (fun l => MuxReplay.verdict l n.toNat?)
     | _ => none
@@ -415,9 +417,9 @@ partial def loop (h : IO.FS.Stream) (t : Tally) : IO Tally := do
     match evalOp op input with
     | some model =>
       if model = impl then loop h { t with lines := n, ok := t.ok + 1 }
-      else if model = "inconclusive" then do
+      else if model.startsWith "inconclusive" then do
         -- a trace replay that ran out of its search budget decides nothing (it is not a rejection)
-        IO.println s!"NOTE {n} {op} replay inconclusive (search budget exhausted)"
+        IO.println s!"NOTE {n} {op} replay {model}"
         loop h { t with lines := n, ok := t.ok + 1 }
       else do
         IO.println s!"MISMATCH {n} {op} {input} impl={impl} model={model}"
